@@ -6,25 +6,37 @@ CONFIG = {
                 "and of the 4-byte frame prefix and reader loop: for EVERY well-formed point of each of the five value types (any name bytes, tags id, time, nil flag, "
                 "aux list with typed values, typed nil markers, empty strings, untyped nil, any aggregate count) decode(encode p) = p; a stream of point / stats / trace "
                 "frames decodes to the same point sequence; Tags.ID() round-trips for NUL-free tag maps; for EVERY byte string the frame reader and message decoder "
-                "return Ok or Err, never crash. Request/reply pairing on pooled connections, over a FIFO-connection model of the client pools: for EVERY call sequence, "
+                "return Ok or Err, never crash. Request / response bodies, over a GENERIC byte-exact model of gogo/protobuf's table marshaler / unmarshaler "
+                "(schema = fields in tag order with label optional/required/repeated/packed and kind varint/zigzag/fixed64/fixed32/bytes/nested message; tag loop, illegal tag 0, "
+                "wire-type mismatch and unknown fields skipped and kept in XXX_unrecognized, groups, last-one-wins, append, packed blocks, merge of repeated nested messages, "
+                "RequiredNotSetError remembered, length checks): for EVERY well-formed schema and EVERY well-formed message value Unmarshal(Marshal(m)) = m (induction over nesting depth, "
+                "fields and elements) and for EVERY schema and EVERY byte string the decoder returns Ok or Err, never crash. The schema of EVERY message of coordinator/internal/data.pb.go "
+                "(struct tags + Go field types) and the table message-type code -> request / response body (service.go constants, EncodeTLV calls, rpc.go wrappers) are regenerated each run; "
+                "each regenerated schema is checked well-formed inside Coq, hence every request and response body round-trips. The rpc.go wrappers WriteShardRequest (binary points as opaque "
+                "blobs, unmarshalPoints dropping undecodable ones), ExecuteStatementRequest, CreateIteratorRequest (Measurement / Opt / SpanContext blobs) and CreateIteratorResponse (Type as int32, "
+                "nested stats) are modelled and proved lossless, the codecs of the opaque payloads entering as hypotheses. Request/reply pairing on pooled connections, over a FIFO-connection model of the client pools: for EVERY call sequence, "
                 "if a connection whose reply was not fully read is never reused, every reply frame a call reads answers that call's own request (and a refutation without the discipline). Storage-layer faults: a second in-process node whose store panics on one shard is sent well-formed requests of three handler families; the panic must not escape handleConn (the data node would die), must be counted, and the next request must be served (observed; recover() is a Go runtime mechanism, not modelled). MaxMessageSize, the dispatch table and the protobuf field tables (numbers, wire kinds, labels) are re-read from the source "
                 "each run. The models are diffed against the real ReadLV/WriteTLV/handleConn, the real <T>PointEncoder/IteratorEncoder (byte equality) and the real "
                 "<T>PointDecoder/NewReaderIterator (decoded values; ok/err/panic class on arbitrary and mutated frames). Differential only (no theorem): well-formed "
                 "request envelopes with invalid or edge contents for every message type are fed to the real handleConn (no handler may panic, reply types must match the "
-                "dispatch model), and Unmarshal(Marshal(v)) = v is checked for every request/response type of rpc.go. The real ShardWriter and MetaExecutor clients with their real "
+                "dispatch model), and Unmarshal(Marshal(v)) = v at the level of the rpc.go wrapper values (JSON, influxql String/Parse, sketches inside the protobuf bodies) is checked for every "
+                "request/response type of rpc.go. The generic protobuf model is diffed against the real proto.Marshal / proto.Unmarshal for every message type of data.proto: byte equality of the "
+                "encoding and of the error flag for generated values (nil/set/empty/long/nested), and ok/err/panic class, decoded value incl. unknown fields and re-marshaled bytes for truncated, "
+                "mutated, hand-built and random inputs; the four wrapper models are diffed byte for byte against the real MarshalBinary and getter for getter against UnmarshalBinary. The real ShardWriter and MetaExecutor clients with their real "
                 "connection pool are driven against a scripted node (late, error, undecodable, missing replies; cut and stalled connections): what each caller is handed and which "
                 "connection each request used are checked against the pairing model and the executable spec.",
-        "note": "Trusts Coq kernel, genconsts translator, the harness and its canonicalisers; io.ReadFull semantics; gogo/protobuf is modelled for the three streamed-point "
-                "messages only; rpc.go message bodies (protobuf, JSON, influxql String/Parse) and the request handlers are exercised, not modelled; heap use beyond the frame "
+        "note": "Trusts Coq kernel, genconsts translator, the harness and its canonicalisers; io.ReadFull semantics; gogo/protobuf v1.3.2 table marshal/unmarshal is modelled (hand-translated from "
+                "proto/table_marshal.go, table_unmarshal.go) and tied by byte-level differential runs, not compiled from its source; JSON / influxql String+Parse / sketch payloads inside rpc.go "
+                "bodies and the request handlers are exercised, not modelled; heap use beyond the frame "
                 "buffer is not modelled (the point frame reader allocates the announced uint32 length before reading).",
-        "technique": "Coq proof (induction over byte streams / field lists, fuel-independent reader loop) on Gallina models of the TLV framing and of the streamed point wire "
-                     "format + differential correspondence against the real listener, encoders and decoders",
+        "technique": "Coq proof (induction over byte streams / field lists / schema nesting depth, fuel-independent reader loops) on Gallina models of the TLV framing, of the streamed point wire "
+                     "format and of the generic protobuf message codec + differential correspondence against the real listener, encoders and decoders",
     },
     "harness": "h_c15",
     "level": "proof",
-    "extra_proof_files": ["PointProofs", "PairProofs"],
+    "extra_proof_files": ["PointProofs", "PairProofs", "ProtoProofs", "WrapProofs"],
     "n": {"quick": 2000, "thorough": 12000},
-    "shard": 300,
+    "shard": 500,
     "bytes_keys": ["stream", "buf", "name", "key", "val", "s"],
     "harness_timeout": {"quick": 1500, "thorough": 3000},
     "rule": "designed cases, always run: (framing) every special length x every dispatch kind, every type byte 0..45 with empty payload and with EOF; "
@@ -41,13 +53,30 @@ CONFIG = {
             "groups, stray end-group, unknown wire types, short fixed32); "
             "(D, kind pair) for each of WriteShard, ExecuteStatement, TaskManagerStatement, MeasurementNames, TagKeys, TagValues, FieldDimensions, MapType, IteratorCost: sequences of 3-4 "
             "token-carrying requests through the real client and pool (120 ms timeout) to a scripted node whose replies echo the token it read: first reply late and arriving while idle, "
-            "late reply overtaken by the next request, error / undecodable replies, cut, half-written and stalled connections, mixed request types on one pooled connection. Then seeded generation (n/40 random pairing scenarios; (1/16 ReadLV, 1/16 WriteTLV, 2/16 random listener streams, 3/16 designed envelopes with "
-            "payload bytes flipped/truncated/extended and re-framed, 3/16 rpc values, 3/16 points, 1/16 encoder streams, 2/16 raw/mutated/hand-built frame streams). "
+            "late reply overtaken by the next request, error / undecodable replies, cut, half-written and stalled connections, mixed request types on one pooled connection; "
+            "(E, kinds pbschema/pbenc/pbdec) the reflected field table of every registered data.proto message; for EVERY message type the zero value (required fields nil: marshal error), required-only, "
+            "everything set with extremes and 130-element number lists, everything set to empty/zero (non-nil empty []byte, \"\", 0, false, empty slices); every truncation of a minimal valid encoding and "
+            "sampled truncations of a random one; per distinct field layout the full fragment list (tag 0, cut / overlong / non-minimal tags, unknown varint/fixed64/fixed32/bytes/group fields incl. short, "
+            "huge (2^63, 2^64-1) lengths, open and ill-formed groups, stray end-group, wire types 6/7, huge field numbers; for every known field each wire type 0/1/2/3/5, packed and cut packed blocks, "
+            "the field twice, nested message twice (merge), nested with only unknown fields, nested malformed, nested cut), alone and after a valid message; "
+            "(F, kind wrap) WriteShardRequest via SetBinaryPoints and AddPoints with valid and undecodable binary points, ExecuteStatementRequest with fields unset, CreateIteratorRequest over the rpc "
+            "generators, CreateIteratorResponse with DataType values inside and outside int32. Then seeded generation (n/40 random pairing scenarios; (1/16 ReadLV, 1/16 WriteTLV, 2/16 random listener streams, 3/16 designed envelopes with "
+            "payload bytes flipped/truncated/extended and re-framed, 3/16 rpc values, 3/16 points, 1/16 encoder streams, 2/16 raw/mutated/hand-built frame streams), then n/3 more: random message values of random data.proto types (pbenc), random / other-type / fragment-concatenation / mutated encodings (pbdec), "
+            "random wrapper values (wrap). "
             "distinct = distinct byte stream / value; non-trivial = header complete (lv), non-empty payload (wr), at least one reply frame (serve), non-default value (rpc), "
-            "point with name, tags or aux (point), at least one point (stream), at least one frame header (raw), >= 2 calls with a late or non-success reply (pair)",
+            "point with name, tags or aux (point), at least one point (stream), at least one frame header (raw), >= 2 calls with a late or non-success reply (pair), non-zero value with non-empty encoding (pbenc), more than one input byte (pbdec), non-zero variant (wrap)",
     "trusted_base": [
-        "C15: request/response structs of coordinator/rpc.go (gogo/protobuf, JSON, influxql String/Parse) are NOT modelled: their round trip (kind rpc) and the handlers' behaviour "
-        "on valid envelopes with invalid contents (kind serve) are differential observations only, no theorem; JSON-carried strings are generated as valid UTF-8, tag keys/values without NUL",
+        "C15: the protobuf bodies of every request/response are modelled generically (Proto.v) and proved to round-trip; what rpc.go puts INSIDE bytes/string fields (JSON documents, "
+        "influxql String()/Parse of expressions and measurements, HLL sketches, datatypes.Read*Request, binary points) is NOT modelled: the wrapper-level round trip (kind rpc) and the handlers' "
+        "behaviour on valid envelopes with invalid contents (kind serve) are differential observations only; in the wrapper theorems these payload codecs are explicit hypotheses "
+        "(parse(marshal p) = p); JSON-carried strings are generated as valid UTF-8, tag keys/values without NUL",
+        "C15: Proto.v is a hand translation of github.com/gogo/protobuf v1.3.2 proto/table_marshal.go + table_unmarshal.go (the version pinned in go.mod) for proto2 messages without "
+        "extensions, oneofs, maps, groups-as-fields, defaults, custom types (genconsts refuses such fields); the tie is byte equality / class+value equality against the real proto.Marshal / "
+        "proto.Unmarshal on every run (kinds pbenc, pbdec), and the field table seen by runtime reflection is compared with the regenerated one (kind pbschema)",
+        "C15: the message-type-code -> body table follows the naming rule xyzRequestMessage -> XyzRequest / XyzResponse, checked by genconsts against every EncodeTLV(conn, const, &T{}) call "
+        "of the coordinator package and against the internal.<Message> type each wrapper's MarshalBinary/UnmarshalBinary names; data.pb.go is compared field by field with data.proto",
+        "C15: allocation of the protobuf decoder is bounded at the model level only as an executable check on observed decodes (msize of the decoded value <= input length, kind pbdec), no theorem; "
+        "Go heap overhead per element (pointers, slice growth) is not modelled",
         "C15: the streamed point model covers messages Point/Aux/IteratorStats of query/internal/internal.proto as gogo/protobuf v1.3.2 table marshal/unmarshal treats them (proto2); "
         "field numbers, wire kinds and labels are regenerated from internal.pb.go by genconsts on every run, the influxql.DataType codes are compared with the working tree by case ptconsts",
         "C15: a handler panic is observed through the handlerPanic statistic of the (repaired) handleConn recover, or directly when it escapes handleConn; a panic in a goroutine "
@@ -62,9 +91,18 @@ CONFIG = {
                 "encodeTags/decodeTags/newTagsID, encodeAux/decodeAux, query/point.gen.go encode<T>Point/decode<T>Point and <T>PointEncoder/<T>PointDecoder, the reader loop of "
                 "<t>ReaderIterator.Next, IteratorEncoder stats/trace frames, protobuf wire encoding/decoding of Point/Aux/IteratorStats incl. unknown fields, wrong wire types, groups, "
                 "required-field check (theories/C15/PointModel.v); the unread-reply queue of a pooled client connection and the reuse discipline of shard_writer.go / meta_executor.go / pool.go "
-                "(theories/C15/PairModel.v). Differential only: process* request handlers, every rpc.go message body, TCP behaviour",
+                "(theories/C15/PairModel.v); gogo/protobuf table marshal/unmarshal for arbitrary proto2 schemas: marshalInfo.marshal field order / nil skipping / required check / "
+                "XXX_unrecognized, unmarshalInfo.unmarshal tag loop with skipField, findEndGroup, typed unmarshalers for varint (uint64/int64/uint32/int32/bool/enum), zigzag, fixed64, fixed32, "
+                "bytes/string, packed blocks, nested messages with merge (theories/C15/Proto.v), instantiated with the schema of every message of coordinator/internal/data.pb.go "
+                "(theories/C15/ProtoTable.v); rpc.go WriteShardRequest setters/getters/unmarshalPoints, ExecuteStatementRequest, CreateIteratorRequest.{Marshal,Unmarshal}Binary, "
+                "CreateIteratorResponse.{Marshal,Unmarshal}Binary (theories/C15/Wrap.v). Differential only: process* request handlers, the payloads inside the bytes fields of the other rpc.go "
+                "wrappers (JSON, influxql text, sketches, storage read requests), TCP behaviour",
     "assumptions": ["io.ReadFull/binary.Read semantics: a short read consumes all remaining bytes and returns an error (io.EOF when nothing was read)",
                     "heap use beyond the TLV frame buffer is not modelled; the point frame reader's make([]byte, sz) for a uint32 sz is outside the MaxMessageSize claim",
+                    "well-formed protobuf message value: one slot per schema field, numbers within their kind's width, optional fields at most one element and required fields exactly one, nested messages "
+                    "well formed, no unrecognized bytes, every byte string and nested body shorter than 2^64; well-formed schema: strictly increasing field numbers below 2^29, packed only on numeric fields",
+                    "wrapper theorems: parse_point(marshal_point p) = p (models binary point codec, C12), dec(enc x) = x for influxql.Measurement, query.IteratorOptions, tracing.SpanContext; "
+                    "CreateIteratorResponse.Type fits an int32",
                     "well-formed point: 64-bit values, uint32 aggregate count, Tags.ID() of a tag map without NUL bytes, aux values of the ten typed kinds or untyped nil, frame body < 2^32 bytes"],
 }
 
